@@ -46,6 +46,10 @@ def eval_dag(program, provided):
         calls[spec["id"]] = args
         outs = spec.get("outs", [])
         ro = spec.get("rename_out") or {}
+        b = spec.get("behav")
+        if isinstance(b, dict) and "const" in b and len(outs) == 1:
+            values[ro.get(outs[0], outs[0])] = canon(b["const"])
+            continue
         for o, v in zip(outs, term(spec["id"], len(outs), args)):
             values[ro.get(o, o)] = v
     return values, calls, unsat
